@@ -271,6 +271,18 @@ class C03(core.PropBase):
                     d = G.deep(doc)
                     place(rng, d, site, sym, rng.choice(["replace", "append", "tight"]))
                     yield {"kind": "job", "doc": d, "decode": True, "tag": "crowded"}
+        # 2c'. undeclared names longer than any fixed-width counter of the "did you mean" helper holds (2**16 and around),
+        #      next to an ordinary offending reference elsewhere: both are named
+        for n in (65535, 65536, 70001) if thorough else (65536,):
+            for where in ("name", "args"):
+                d = {"specificationVersion": "jobtemplate-2023-09", "name": "J", "parameterDefinitions": [{"name": "P", "type": "STRING"}],
+                     "steps": [{"name": "S", "script": {"actions": {"onRun": {"command": "{{Param.Nope}}", "args": ["{{Param.P}}"]}}}}]}
+                long = "{{ Param." + "Q" * n + " }}"
+                if where == "name":
+                    d["name"] = long
+                else:
+                    d["steps"][0]["script"]["actions"]["onRun"]["args"].append(long)
+                yield {"kind": "job", "doc": d, "decode": True, "tag": "long-undeclared"}
         # 2d. the SAME Python object at two places of the document (what a YAML alias gives: `script: *s`): step 2 reusing
         #     step 1's script / action / args list / parameter space / environments, with references that are in scope at
         #     one of the two places only.  Every place is checked for itself.
